@@ -51,6 +51,19 @@ Theorem C11_frames_whole : forall opss c,
                 futs data hdr c = agg data (wexpand data hdr) (stack th)).
 Proof. exact (frames_whole_thm data encode enc hdr upper). Qed.
 
+(* Explicitly: the wire is whole header.payload frames with nonces 0..j-1, plus possibly ONE header
+   whose payload is the very next pending write below the coder (by C11_frames_whole that is the
+   next write of the unique thread below the coder, which holds the coder's and the noise lock). *)
+Theorem C11_dangling_header : forall opss c,
+  entry_ok' data opss -> reach_nf opss c ->
+  exists j,
+    (wire (sh c) = frames data enc hdr 0 (firstn j (sent (sh c))) /\
+     futs data hdr c = frames data enc hdr j (skipn j (sent (sh c)))) \/
+    (exists p r, skipn j (sent (sh c)) = p :: r /\
+                 wire (sh c) = frames data enc hdr 0 (firstn j (sent (sh c))) ++ [hdr (enc j p)] /\
+                 futs data hdr c = enc j p :: frames data enc hdr (S j) r).
+Proof. exact (dangling_header_thm data encode enc hdr upper). Qed.
+
 (* Whenever no thread is below the coder the wire is exactly whole frames, the j-th frame
    encrypted with nonce j: the peer can decrypt every one of them in order. *)
 Theorem C11_counter_order : forall opss c,
@@ -79,6 +92,7 @@ End C11.
 Print Assumptions C11_serialised.
 Print Assumptions C11_below_holds_coder_lock.
 Print Assumptions C11_frames_whole.
+Print Assumptions C11_dangling_header.
 Print Assumptions C11_counter_order.
 Print Assumptions C11_exactly_once.
 Print Assumptions C11_no_deadlock.
